@@ -864,8 +864,7 @@ func (i *BigInt) LaxEqual(other Value) bool {
 			oBigInt := NewBigInt(int64(o))
 			return i.Cmp(oBigInt) == 0
 		case UInt64:
-			oBigInt := NewBigInt(int64(o))
-			return i.Cmp(oBigInt) == 0
+			return i.ToGoBigInt().Cmp((&big.Int{}).SetUint64(uint64(o))) == 0
 		case Float64:
 			return EqBigIntFloat64(i.ToGoBigInt(), float64(o))
 		default:
@@ -892,11 +891,9 @@ func (i *BigInt) LaxEqual(other Value) bool {
 		oBigInt := NewBigInt(int64(other.AsInt8()))
 		return i.Cmp(oBigInt) == 0
 	case UINT_FLAG:
-		oBigInt := NewBigInt(int64(other.AsUInt()))
-		return i.Cmp(oBigInt) == 0
+		return i.ToGoBigInt().Cmp((&big.Int{}).SetUint64(uint64(other.AsUInt()))) == 0
 	case UINT64_FLAG:
-		oBigInt := NewBigInt(int64(other.AsInlineUInt64()))
-		return i.Cmp(oBigInt) == 0
+		return i.ToGoBigInt().Cmp((&big.Int{}).SetUint64(uint64(other.AsInlineUInt64()))) == 0
 	case UINT32_FLAG:
 		oBigInt := NewBigInt(int64(other.AsUInt32()))
 		return i.Cmp(oBigInt) == 0
